@@ -227,7 +227,11 @@ def build_and_run(prop, sites, jobs, report, replay_fn=None, parallel=8):
         return None          # development aid only (never set by the registered commands)
     name = f'kani-{prop}'
     # one scratch copy per property: serialised, unless this process was given a scratch root of its own (parallel development runs)
-    lockname = name + ('-' + re.sub(r'\W+', '_', os.environ['VERIF_SCRATCH']) if os.environ.get('VERIF_SCRATCH') else '')
+    # One lock per Kani target directory, not per property: cargo names the build products of a workspace member after its path *relative to the workspace
+    # root*, so the scratch copies of two properties (kani-C06, kani-C07) compile "the same unit" into the same files of the shared target directory;
+    # two checks started at the same time would overwrite each other's harness binaries between build and CBMC runs.  (Parallel development runs bring
+    # their own scratch root and target directory, hence their own lock.)
+    lockname = 'kani-target' + ('-' + re.sub(r'\W+', '_', os.environ['VERIF_SCRATCH']) if os.environ.get('VERIF_SCRATCH') else '')
     with locked(lockname):
         scratch = sync_scratch(name)
         overlay(scratch, sites)
